@@ -59,7 +59,7 @@ func c09Plan(seed int64, tier string) []core.Case {
 		for _, wc := range confs {
 			K := c09CountWriter(wl, int(wc))
 			for k := 1; k <= K+1; k++ {
-				for _, mode := range []int64{0, 1, 2} {
+				for _, mode := range []int64{0, 1, 2, 3} {
 					for _, d := range delays {
 						c := core.Case{Kind: "writer", Seed: core.SubSeed(seed, "c09w", wl, wc, k, mode, d),
 							S: map[string]string{"wl": wl}, P: map[string]int64{"wc": wc, "k": int64(k), "mode": mode, "delay": d, "K": int64(K)}}
@@ -265,8 +265,8 @@ func leakCheck(r *core.Result, cfg string) {
 
 func c09Writer(r *core.Result, c core.Case) {
 	wl, wc, k, mode := c.Str("wl"), c.Int("wc"), c.Int("k"), c.Int("mode")
-	cfg := fmt.Sprintf("writer workload=%s wc=%d fault at underlying write %d of %d mode=%s delay=%dms", wl, wc, k, c.Int("K"), []string{"error", "partial+error", "transient-error"}[mode], c.Int("delay"))
-	w := &mon.RecWriter{FailAt: k, Partial: mode == 1, FailOnce: mode == 2}
+	cfg := fmt.Sprintf("writer workload=%s wc=%d fault at underlying write %d of %d mode=%s delay=%dms", wl, wc, k, c.Int("K"), []string{"error", "partial+error", "transient-error", "transient-error-with-full-count"}[mode], c.Int("delay"))
+	w := &mon.RecWriter{FailAt: k, Partial: mode == 1, FailOnce: mode == 2 || mode == 3, FullCount: mode == 3}
 	if d := c.Int("delay"); d > 0 {
 		w.Delay = func(call int) time.Duration {
 			if call == k {
